@@ -2,6 +2,7 @@
 
 
 FUNCS = ['PEPit/function.py::Function.' + n for n in ('_is_already_evaluated_on_point', 'add_point', 'stationary_point', 'fixed_point', '__init__',
+                                                       '_separate_leaf_functions_regarding_their_need_on_point', 'oracle', 'value', '__call__', 'subgradient', 'gradient',
                                                        '__add__', '__sub__', '__neg__', '__rmul__', '__mul__', '__truediv__')]
 
 
@@ -10,8 +11,8 @@ def run(run):
     runner.load_contracts()
     components.ast_functions(run, FUNCS, run.tier, rt_quick=10, rt_thorough=60)
     run.trust('pyvc AST engine + z3 5.1 / cvc5 1.0.3')
-    run.assume('add_point / stationary_point / fixed_point are proved for LEAF functions (precondition _is_leaf); Function.oracle / value / gradient and the '
-               'composite branch of add_point are covered by the bounded call-sequence harness only')
+    run.assume('add_point / stationary_point / fixed_point / oracle / value / __call__ / (sub)gradient are proved for LEAF functions (precondition _is_leaf and the '
+               'constructor\'s own decomposition {self: 1}); sums of functions (the composite branches of oracle and add_point) are covered by the bounded call-sequence harness only')
     from harness import oracle_seq as o
     n, res = o.run_all(run.seed, thorough=run.tier != 'quick')
     seen = set()
